@@ -162,9 +162,14 @@ impl<'a, P: for<'p> Protocol<'p>> DemoWriter<'a, P> {
         Ok(())
     }
     pub fn write_msg(&mut self, msg: &<P as Protocol<'_>>::Game) -> Result<(), WriteError> {
-        with_packer(&mut self.buf, |p| msg.encode(p)).map_err(|_| WriteError::TooLongNetMsg)?;
-        self.inner.write_message(self.buf.as_slice())?;
+        let result = (|| -> Result<(), WriteError> {
+            with_packer(&mut self.buf, |p| msg.encode(p)).map_err(|_| WriteError::TooLongNetMsg)?;
+            self.inner.write_message(self.buf.as_slice())?;
+            Ok(())
+        })();
+        // Also after an error: whatever is left of a refused message must
+        // not end up in front of the next chunk.
         self.buf.clear();
-        Ok(())
+        result
     }
 }
